@@ -178,6 +178,26 @@ def getNoisyAll (cfg : PCfg) : PState → List Bool → PState
   | st, [] => st
   | st, dn :: dns => getNoisyAll cfg (getNoisy cfg st dn).1 dns
 
+/-! ## The LIST of noise objects (`process_noise` appends `RelaxationNoise(t1, t2)` to the list it works on) -/
+
+/-- the list `process_noise` iterates over -/
+def usedNoise (noise : List Noise) : Option (List Int) → List Noise
+  | some t => noise ++ [Noise.relax t]
+  | none => noise
+
+/-- a noisy evaluation with relaxation times given (`relax` = the collapse operators of `RelaxationNoise(t1, t2)`,
+`none` when `t1` and `t2` are `None`).  `lcopy`: a copy of the LIST of noise objects is made somewhere between its owner
+(the caller of `process_noise`, or the hardware model whose `get_noise` hands it out) and the `append`; without it
+the owner's list itself grows. -/
+def getNoisyT (cfg : PCfg) (lcopy : Bool) (relax : Option (List Int)) (st : PState) (dn : Bool) :
+    PState × Except Err (List Ref) :=
+  let r := getNoisy cfg { st with noise := usedNoise st.noise relax } dn
+  ({ r.1 with noise := if lcopy then st.noise else usedNoise st.noise relax }, r.2)
+
+def getNoisyTAll (cfg : PCfg) (lcopy : Bool) (relax : Option (List Int)) : PState → List Bool → PState
+  | st, [] => st
+  | st, dn :: dns => getNoisyTAll cfg lcopy relax (getNoisyT cfg lcopy relax st dn).1 dns
+
 /-! ## Values (what deep snapshots see) -/
 
 structure PVal where
